@@ -74,8 +74,8 @@ CHECKS = {
         text="held on every (vocabulary, string, pad, enc_type) case of the run: shuffled insertion order, one vocabulary object changed in place, defaults and keyword forms, batch laws, error paths (missing symbol, bad enc_type, ragged vector, label outside 0..n-1).",
         ref="5 C15"),
     "C16": dict(
-        technique="runtime monitoring, exhaustive over the stated finite space: all n < 65536, all 21^3 symbol triples, every Q < 4096 through crafted ring/branch strings and macrocycle / long-branch SMILES",
-        text="exhaustive for 0 <= n < 16^4 and all 21^3 triples at helper level and for every Q < 16^3 at API level (decoder ring sizes and branch lengths, 1-3 index symbols), sampled n up to 16^70 around every power of 16 and 2, truncated reads, index symbols straddling a branch end judged by the reference derivation, ring sizes / branch lengths up to 4097 at API level (encoder).",
+        technique="runtime monitoring, exhaustive over the stated finite space: all n < 65536, all 37^3 symbol triples, every Q < 4096 through crafted ring/branch strings and macrocycle / long-branch SMILES",
+        text="exhaustive for 0 <= n < 16^4 and all 37^3 triples (16 index symbols, 20 non-index symbols incl. near misses, missing) at helper level and for every Q < 16^3 at API level (decoder ring sizes and branch lengths, 1-3 index symbols), sampled n up to 16^70 around every power of 16 and 2, truncated reads, index symbols straddling a branch end judged by the reference derivation, ring sizes / branch lengths up to 4097 at API level (encoder).",
         ref="5 C16"),
     "C17": dict(
         technique="runtime monitoring: attribution entries checked against the output text, the input tokenisation and the reference derivation's frame stack",
